@@ -1,6 +1,6 @@
 (* C08 -- Blocks render independently, in order (partial: see MANIFEST level text). *)
 From Rimu Require Import Base Unicode Regex RegexAnalysis RegexParse Str Types Tables Guards State Inline Block
-  Frame FrameBlock FrameInst OptionsLemmas MiscLemmas MoreLemmas Plain TableFacts PlainDoc Lines RegexSem MatchLemmas MatchExact.
+  Frame FrameBlock FrameInst OptionsLemmas MiscLemmas MoreLemmas Plain TableFacts PlainDoc Lines RegexSem MatchLemmas MatchExact Locality.
 
 (* the block loop emits the rendering of the first block followed by the rendering of the rest,
    from the state and reader the first block left *)
@@ -82,3 +82,26 @@ Theorem C08_patterns_exact :
   forallb (fun nr => wf_exact (re_ast (snd nr)) || mem (fst nr) exact_exceptions) all_regexes = true.
 Proof. exact generated_patterns_exact. Qed.
 Print Assumptions C08_patterns_exact.
+
+(* A BLOCK'S RENDERING DOES NOT DEPEND ON THE BLOCKS THAT FOLLOW IT: if the block loop takes k blocks (line blocks and delimited
+   blocks: prefix_run) from the lines rd and the k-th ends before the end of rd, then from rd ++ suf it takes the same k blocks,
+   with the same output and the same session, leaving what was left followed by suf -- for every suffix -- and goes on from there *)
+Theorem C08_first_blocks_independent : forall fuel doc suf n rd s o rdk sk n',
+  prefix_run fuel doc n rd s o rdk sk n' -> rdk <> [] ->
+  prefix_run fuel doc n (rd ++ suf) s o (rdk ++ suf) sk n' /\
+  doc_loop fuel doc n (rd ++ suf) s = then_loop o (doc_loop fuel doc n' (rdk ++ suf) sk).
+Proof. intros. split; [apply prefix_run_suffix|apply first_blocks_independent]; assumption. Qed.
+Print Assumptions C08_first_blocks_independent.
+
+(* the single-block forms, for every definition table and safe mode *)
+Theorem C08_line_block_local : forall fuel suf allowed defs cur rest o rd' s s',
+  lineblocks_loop fuel defs (cur :: rest) allowed s = Ok ((o, rd'), s') -> rd' <> [] ->
+  lineblocks_loop fuel defs (cur :: rest ++ suf) allowed s = Ok ((o, rd' ++ suf), s').
+Proof. intros fuel suf allowed. exact (lineblocks_loop_suffix fuel suf allowed). Qed.
+Print Assumptions C08_line_block_local.
+
+Theorem C08_delimited_block_local : forall fuel suf doc allowed cur rest o rd' s s',
+  dblocks_render fuel doc (cur :: rest) allowed s = Ok ((o, rd'), s') -> rd' <> [] ->
+  dblocks_render fuel doc (cur :: rest ++ suf) allowed s = Ok ((o, rd' ++ suf), s').
+Proof. exact dblocks_render_suffix. Qed.
+Print Assumptions C08_delimited_block_local.
